@@ -12,6 +12,8 @@ def check(rep):
     ER.rule_value_keyed_caches(ctx, rid="C01.NO-VALUE-KEYED-CACHE", modules={"binning/binning.py", "experiment_evaluator.py"})
     ER.rule_retained_arguments(ctx, rid="C01.NO-RETAINED-ARGUMENT")
     ER.rule_call_forwards(ctx, rid="C01.CALL-FORWARDS")
+    ER.rule_skip_guard(ctx, rid="C01.SKIP-GUARD")
+    ER.rule_fingerprint_recorded(ctx, rid="C01.FINGERPRINT-RECORDED")
     ER.rule_installed_function(ctx, rid="C01.INSTALLED-FUNCTION", strict=False, facets=("namespace", "installed"))
     PR.rule_compiles(ctx, rid="C01.SHAPE-COMPILES", strict=False)
     n = PR.rule_key_order_independent(ctx)
